@@ -230,6 +230,11 @@ def ctor_words(ct):
 def build(ct):
     from diffpy.structure.lattice import Lattice
 
+    if ct["kind"] == "history":
+        world = []
+        for op in ct["ops"]:
+            apply_op(world, op)
+        return world[ct["target"]]
     if ct["kind"] == "base":
         return Lattice(base=ct["base"])
     if ct["kind"] == "default":
@@ -237,6 +242,206 @@ def build(ct):
     if ct["rot"] is None:
         return Lattice(*ct["abcABG"])
     return Lattice(*ct["abcABG"], baserot=ct["rot"])
+
+
+# ---- operations of an update history: JSON form, model words, execution on the real objects (shared with c10)
+
+NAMES = ["a", "b", "c", "alpha", "beta", "gamma"]
+
+
+def op_words(op):
+    k = op["op"]
+    if k == "new":
+        return "D"
+    if k == "newpar":
+        return ctor_words({"kind": "par", "abcABG": op["abcABG"], "rot": op.get("rot")})
+    if k == "newbase":
+        return "B " + fl(flat(op["base"]))
+    if k == "copy":
+        return "C %d" % op["i"]
+    if k == "recip":
+        return "X %d" % op["i"]
+    if k == "setpar":
+        mask, vals = 0, []
+        for j, n in enumerate(NAMES):
+            if n in op["args"]:
+                mask |= 1 << j
+                vals.append(bits(op["args"][n]))
+        if "baserot" in op["args"]:
+            mask |= 64
+            vals.append(fl(flat(op["args"]["baserot"])))
+        return ("S %d %d %s" % (op["i"], mask, " ".join(vals))).strip()
+    if k == "prop":
+        return "A %d %d %s" % (op["i"], NAMES.index(op["name"]), bits(op["value"]))
+    if k == "setbase":
+        return "L %d %s" % (op["i"], fl(flat(op["base"])))
+    raise ValueError(k)
+
+
+def apply_op(world, op):
+    """execute on real objects; returns index of the touched/created object"""
+    from diffpy.structure.lattice import Lattice
+
+    k = op["op"]
+    if k == "new":
+        world.append(Lattice())
+    elif k == "newpar":
+        world.append(build({"kind": "par", "abcABG": op["abcABG"], "rot": op.get("rot")}))
+    elif k == "newbase":
+        world.append(Lattice(base=op["base"]))
+    elif k == "copy":
+        world.append(Lattice(world[op["i"]]))
+    elif k == "recip":
+        world.append(world[op["i"]].reciprocal())
+    elif k == "setpar":
+        world[op["i"]].setLatPar(**op["args"])
+        return op["i"]
+    elif k == "prop":
+        setattr(world[op["i"]], op["name"], op["value"])
+        return op["i"]
+    elif k == "setbase":
+        world[op["i"]].setLatBase(op["base"])
+        return op["i"]
+    else:
+        raise ValueError(k)
+    return len(world) - 1
+
+
+def shadow_states(ops):
+    """Independent bookkeeping of what every object of a history *should* be: current cell parameters and rotation
+    (numpy / first principles only, never the implementation).  Each state: {"p": [a,b,c,al,be,ga], "rot": M|None,
+    "base": B|None}; "base" is set while the object is defined by base vectors (setLatBase, Lattice(base=), reciprocal())."""
+    import copy as _copy
+
+    import numpy as np
+
+    def std_of(p):
+        return np.array(first_principles(p[0], p[1], p[2], p[3], p[4], p[5], None)["stdbase"])
+
+    def from_base(B):
+        B = [[float(x) for x in r] for r in B]
+        p = list(params_of_base(B))
+        R = np.linalg.solve(std_of(p), np.array(B))
+        return {"p": p, "rot": R.tolist(), "base": B}
+
+    st = []
+    for op in ops:
+        k = op["op"]
+        if k == "new":
+            st.append({"p": [1.0, 1.0, 1.0, 90.0, 90.0, 90.0], "rot": None, "base": None})
+        elif k == "newpar":
+            st.append({"p": [float(x) for x in op["abcABG"]], "rot": op.get("rot"), "base": None})
+        elif k == "newbase":
+            st.append(from_base(op["base"]))
+        elif k == "setbase":
+            st[op["i"]] = from_base(op["base"])
+        elif k == "copy":
+            st.append(_copy.deepcopy(st[op["i"]]))
+        elif k == "recip":
+            s = st[op["i"]]
+            Q = np.eye(3) if s["rot"] is None else np.array(s["rot"])
+            st.append(from_base(np.linalg.inv(std_of(s["p"]) @ Q).T.tolist()))
+        elif k in ("setpar", "prop"):
+            s = st[op["i"]]
+            args = op["args"] if k == "setpar" else {op["name"]: op["value"]}
+            st[op["i"]] = {"p": [float(args.get(n, s["p"][j])) for j, n in enumerate(NAMES)],
+                           "rot": args.get("baserot", s["rot"]), "base": None}
+        else:
+            raise ValueError(k)
+    return st
+
+
+def equiv_ctor(ct):
+    """the direct constructor that describes the same lattice as the object reached through a history"""
+    if ct["kind"] != "history":
+        return ct
+    s = shadow_states(ct["ops"])[ct["target"]]
+    if s["base"] is not None:
+        return {"kind": "base", "base": s["base"]}
+    return {"kind": "par", "abcABG": s["p"], "rot": s["rot"]}
+
+
+def model_prefix(ct):
+    """driver words that make the model build the same object"""
+    if ct["kind"] == "history":
+        return "lat.hq %d %s Q" % (ct["target"], " ".join(op_words(o) for o in ct["ops"]))
+    return "lat.q " + ctor_words(ct)
+
+
+def gen_update(rng, i, stratum):
+    """one update of object i: setLatPar of a random subset, a property assignment, a new rotation, or setLatBase"""
+    k = rng.randrange(8)
+    a, b, c = gen_lengths(rng)
+    al, be, ga = gen_angles(rng, stratum)
+    cand = [a, b, c, al, be, ga]
+    if k < 3:
+        mask = rng.randrange(1, 128)
+        args = {NAMES[j]: cand[j] for j in range(6) if (mask >> j) & 1}
+        if (mask >> 6) & 1:
+            args["baserot"] = gen_rot(rng)
+        return {"op": "setpar", "i": i, "args": args}
+    if k < 5:
+        j = rng.randrange(6)
+        return {"op": "prop", "i": i, "name": NAMES[j], "value": cand[j]}
+    if k == 5:
+        return {"op": "setpar", "i": i, "args": {"baserot": gen_rot(rng)}}
+    return {"op": "setbase", "i": i, "base": gen_base(rng)}
+
+
+HIST_PATTERNS = ["par>setbase", "new>setbase", "base>setpar", "base>prop", "base>rot", "copy:edit-original", "copy:edit-copy",
+                 "update>recip", "updates"]
+
+
+def gen_history_cases(rng, stratum):
+    """objects reached through 1-3 preceding updates; returns a list of constructor specs of kind "history"
+    (two specs, one per object, for the copy patterns)"""
+    for _ in range(200):
+        pat = rng.choice(HIST_PATTERNS)
+        ct0 = gen_ctor(rng, stratum)
+        first = ({"op": "newbase", "base": ct0["base"]} if ct0["kind"] == "base"
+                 else {"op": "newpar", "abcABG": ct0["abcABG"], "rot": ct0["rot"]})
+        a, b, c = gen_lengths(rng)
+        al, be, ga = gen_angles(rng, stratum)
+        if pat == "par>setbase":
+            ops = [{"op": "newpar", "abcABG": [a, b, c, al, be, ga], "rot": gen_rot(rng) if rng.random() < 0.5 else None},
+                   {"op": "setbase", "i": 0, "base": gen_base(rng)}]
+            targets = [0]
+        elif pat == "new>setbase":
+            ops = [{"op": "new"}, {"op": "setbase", "i": 0, "base": gen_base(rng)}]
+            targets = [0]
+        elif pat == "base>setpar":
+            mask = rng.randrange(1, 64)
+            ops = [{"op": "newbase", "base": gen_base(rng)},
+                   {"op": "setpar", "i": 0, "args": {NAMES[j]: [a, b, c, al, be, ga][j] for j in range(6) if (mask >> j) & 1}}]
+            targets = [0]
+        elif pat == "base>prop":
+            j = rng.randrange(6)
+            ops = [{"op": "newbase", "base": gen_base(rng)}, {"op": "prop", "i": 0, "name": NAMES[j], "value": [a, b, c, al, be, ga][j]}]
+            targets = [0]
+        elif pat == "base>rot":
+            ops = [{"op": "newbase", "base": gen_base(rng)}, {"op": "setpar", "i": 0, "args": {"baserot": gen_rot(rng)}}]
+            targets = [0]
+        elif pat in ("copy:edit-original", "copy:edit-copy"):
+            if rng.random() < 0.2:
+                first = {"op": "new"}
+            e = 0 if pat == "copy:edit-original" else 1
+            ops = [first, {"op": "copy", "i": 0}] + [gen_update(rng, e, stratum) for _ in range(rng.randrange(1, 3))]
+            targets = [1 - e, e]
+        elif pat == "update>recip":
+            ops = [first] + [gen_update(rng, 0, stratum) for _ in range(rng.randrange(1, 3))] + [{"op": "recip", "i": 0}]
+            targets = [1]
+        else:
+            ops = [first] + [gen_update(rng, 0, stratum) for _ in range(rng.randrange(1, 4))]
+            targets = [0]
+        # every intermediate object must be a well-conditioned cell
+        okh = True
+        for n in range(1, len(ops) + 1):
+            for s in shadow_states(ops[:n]):
+                if not cell_ok(*s["p"][3:]) or min(s["p"][:3]) < 0.02 or max(s["p"][:3]) > 60.0:
+                    okh = False
+        if okh:
+            return [{"kind": "history", "ops": ops, "target": t, "pattern": pat} for t in targets]
+    return [gen_ctor(rng, stratum)]
 
 
 def gen_vectors(rng, n):
@@ -314,6 +519,7 @@ def oracle_ctor(ct, lat):
     Returns a list of (quantity, expected, observed)."""
     import numpy as np
 
+    ct = equiv_ctor(ct)
     bad = []
 
     def chk(name, exp, obs, tol=TOL):
@@ -406,8 +612,29 @@ def oracle_vectors(lat, u, v):
 
 def directed_search(ct):
     """Sweep the disagreeing cell over the angle grid with unit vectors and their pairwise sums."""
-    grid = [60.0, 75.0, 90.0, 105.0, 120.0]
     e = [[1.0, 0.0, 0.0], [0.0, 1.0, 0.0], [0.0, 0.0, 1.0]]
+    if ct["kind"] == "history":
+        # the same history with right/table angles made generic (the failure may need the history, not only the cell)
+        from .c10 import angle_variants
+
+        vecs0 = e + [[1.0, 1.0, 0.0], [1.0, 0.0, 1.0], [0.0, 1.0, 1.0]]
+        for ops in [ct["ops"]] + list(angle_variants(ct["ops"])):
+            for t in range(len(shadow_states(ops))):
+                c2 = {"kind": "history", "ops": ops, "target": t}
+                try:
+                    lat = build(c2)
+                    bad = oracle_ctor(c2, lat)
+                    if bad:
+                        return c2, None, None, bad[0]
+                    for u in vecs0:
+                        for v in vecs0:
+                            bad = oracle_vectors(lat, u, v)
+                            if bad:
+                                return c2, u, v, bad[0]
+                except Exception as ex:  # noqa: BLE001
+                    return c2, None, None, ("exception", "no exception", repr(ex))
+        ct = equiv_ctor(ct)
+    grid = [60.0, 75.0, 90.0, 105.0, 120.0]
     vecs = e + [[e[i][k] + e[j][k] for k in range(3)] for i in range(3) for j in range(i + 1, 3)]
     if ct["kind"] == "base":
         a, b, c = params_of_base(ct["base"])[:3]
@@ -465,18 +692,24 @@ def run(ck):
     nvec = 12 if quick else 4
     rng = ck.rng
     ck.coverage["rule"] = (
-        "%d constructor cases stratified over %s x {parameters, parameters+random proper rotation, random positive-determinant base}; "
+        "%d lattice objects stratified over %s x {parameters, parameters+random proper rotation, random positive-determinant base}, "
+        "one third of them reached through 1-3 preceding updates (setLatBase after parameters/default, setLatPar subset/property/baserot after a base, "
+        "copy construction then editing the original resp. the copy with BOTH objects tested, reciprocal() of an updated lattice); "
         "%d vector pairs each (generic, axis, equal/opposite, small, integer); every attribute and method compared "
         "model(Float) vs implementation (tolerance 1e-9*scale) and against the Euclidean/first-principles oracle; "
         "Nx3 arrays and 1-vs-N broadcasting compared row-wise; distinct_nontrivial = cases with at least one non-right angle"
         % (ncell, "/".join(STRATA), nvec))
     cases = []
-    for i in range(ncell):
+    i = 0
+    while len(cases) < ncell:
         st = STRATA[i % len(STRATA)]
-        ct = gen_ctor(rng, st)
-        ct["stratum"] = st
-        pairs = gen_vectors(rng, nvec)
-        cases.append((ct, pairs))
+        # every third case: the object is reached through 1-3 preceding updates (both objects for the copy patterns)
+        cts = gen_history_cases(rng, st) if i % 3 == 2 else [gen_ctor(rng, st)]
+        for ct in cts:
+            ct["stratum"] = st
+            cases.append((ct, gen_vectors(rng, nvec)))
+        i += 1
+    cases = cases[:ncell]
     hist = {}
     disagreements = []  # (ct, what) model vs implementation
     nfail_oracle = 0
@@ -484,22 +717,22 @@ def run(ck):
         chunk = cases[lo:lo + 1000]
         lines = []
         for ct, pairs in chunk:
-            q = [ctor_words(ct), "attrs", "repr"]
+            q = [model_prefix(ct), "attrs", "repr"]
             u0 = pairs[0][0]
             for u, v in pairs:
                 q += ["cart", fl(u), "frac", fl(v), "norm", fl(u), "rnorm", fl(u), "dot", fl(u), fl(v), "dist", fl(u), fl(v),
                       "angle", fl(u), fl(v), "dot", fl(u0), fl(v), "dist", fl(u0), fl(v), "angle", fl(u0), fl(v)]
-            lines.append("lat.q " + " ".join(q))
+            lines.append(" ".join(q))
         outs = common.driver(lines)
         for (ct, pairs), o in zip(chunk, outs):
-            key_st = "%s/%s" % (ct["kind"] + ("+rot" if ct.get("rot") else ""), ct["stratum"])
+            key_st = "%s/%s" % (ct["kind"] + ("+rot" if ct.get("rot") else "") + (":" + ct["pattern"] if ct.get("pattern") else ""), ct["stratum"])
             hist[key_st] = hist.get(key_st, 0) + 1
             ck.coverage["evaluations"] += 1
             try:
                 lat = build(ct)
             except Exception as ex:  # noqa: BLE001
                 fail_once(ck, "exception:%s:%s" % (ct["kind"], type(ex).__name__),
-                        "Lattice construction raised %r on a valid cell %r" % (ex, ct),
+                        "construction raised %r on a valid input: %s" % (ex, describe(ct)),
                         {"kind": "oracle", "ctor": ct, "quantity": "construction", "expected": "no exception", "observed": repr(ex)})
                 continue
             if any(abs(x - 90.0) > 1e-6 for x in lat.abcABG()[3:]):
@@ -578,7 +811,7 @@ def run(ck):
         if tag in seen:
             continue
         seen.add(tag)
-        found = directed_search(ct) if ct is not None and ct.get("kind") in ("par", "base") else None
+        found = directed_search(ct) if ct is not None and ct.get("kind") in ("par", "base", "history") else None
         if found:
             c2, u, v, (qn, e, ob) = found
             fail_once(ck, "oracle:%s" % quantity_key(qn), "model and implementation disagree (%s on %s); directed search: %s fails on %s%s: expected %r observed %r"
@@ -613,11 +846,33 @@ def leanchecker(ck, module):
 def describe(ct):
     if ct is None:
         return "(helper function)"
+    if ct["kind"] == "history":
+        return "object %d after the history [%s]: %s" % (ct["target"], ",".join(o["op"] for o in ct["ops"]),
+                                                        "; ".join(describe_op(o) for o in ct["ops"]))
     if ct["kind"] == "base":
         return "Lattice(base=%r)" % (ct["base"],)
     if ct["kind"] == "default":
         return "Lattice()"
     return "Lattice(%s%s)" % (", ".join("%r" % x for x in ct["abcABG"]), "" if ct.get("rot") is None else ", baserot=%r" % (ct["rot"],))
+
+
+def describe_op(o):
+    k = o["op"]
+    if k == "new":
+        return "Lattice()"
+    if k == "newpar":
+        return describe({"kind": "par", "abcABG": o["abcABG"], "rot": o.get("rot")})
+    if k == "newbase":
+        return "Lattice(base=%r)" % (o["base"],)
+    if k == "copy":
+        return "Lattice(obj%d)" % o["i"]
+    if k == "recip":
+        return "obj%d.reciprocal()" % o["i"]
+    if k == "setpar":
+        return "obj%d.setLatPar(%s)" % (o["i"], ", ".join("%s=%r" % kv for kv in o["args"].items()))
+    if k == "prop":
+        return "obj%d.%s = %r" % (o["i"], o["name"], o["value"])
+    return "obj%d.setLatBase(%r)" % (o["i"], o["base"])
 
 
 def repr_class(s):
@@ -696,7 +951,7 @@ def aniso_and_cosd(ck, cases, disagreements):
         else:
             U = np.array([[rng.uniform(-0.01, 0.05) for _ in range(3)] for _ in range(3)])
             U = (U + U.T) / 2
-        lines.append("lat.q %s aniso %s" % (ctor_words(ct), fl(flat(U.tolist()))))
+        lines.append("%s aniso %s" % (model_prefix(ct), fl(flat(U.tolist()))))
         meta.append((ct, lat, U, k))
     outs = common.driver(lines)
     for (ct, lat, U, k), o in zip(meta, outs):
